@@ -110,6 +110,7 @@ void INTERNAL qt_blocking_subsystem_init(void)
 #endif
     theQueue.head   = NULL;
     theQueue.tail   = NULL;
+    proxy_exit      = 0;
     io_worker_count = 0;
     io_worker_max   = qt_internal_get_env_num("MAX_IO_WORKERS", 10, 1);
     timeout         = qt_internal_get_env_num("IO_TIMEOUT", 100, 100);
